@@ -158,7 +158,7 @@ MachineMeetsRef ==
 EmitCase ==
   Complete(ch) =>
     LET r == CliRef(ch) IN
-    PrintT("CASE " \o ToJson([script |-> Script(ch), text |-> Text(ch), out |-> r.out,
+    PrintT("CASE " \o ToJson([script |-> Script(ch), text |-> Text(ch), ch |-> ch, out |-> r.out,
                               realFails |-> Cardinality({i \in DOMAIN Script(ch) : Script(ch)[i] \in {"LetBad", "QBad"}}),
                               hasEmpty |-> \E i \in 1..(Len(Script(ch)) - (IF LastTerminated(ch) THEN 0 ELSE 1)) : Script(ch)[i] = "Empty",
                               finalLet |-> ~LastTerminated(ch) /\ Script(ch)[Len(Script(ch))] = "LetOk"]))
